@@ -7,6 +7,7 @@ import Gpc.Driver.Scope
 import Gpc.Driver.Map
 import Gpc.Driver.Array
 import Gpc.Driver.Str
+import Gpc.Driver.CaseMap
 open Gpc.Proto
 
 /-- state of the stateful models (one operation script at a time) -/
@@ -27,6 +28,7 @@ def dispatch (st : St) (toks : List String) : St × String :=
   | "sc" :: rest => let (a, o) := Gpc.Driver.scopeStep st.scopes rest; ({ st with scopes := a }, o)
   | "map" :: rest => let (a, o) := Gpc.Driver.mapStep st.map rest; ({ st with map := a }, o)
   | "arr" :: rest => let (a, o) := Gpc.Driver.arrStep st.arr rest; ({ st with arr := a }, o)
+  | "case" :: rest => (st, Gpc.Driver.caseStep rest)
   | "str" :: rest => let (a, o) := Gpc.Driver.strStep st.str rest; ({ st with str := a }, o)
   | _ => (st, "bad-op")
 
